@@ -284,6 +284,19 @@ theorem triangle_terminates (t : Tri) (style : TriStyle) :
 example : TriNeedsI32 ⟨⟨-3, 1⟩, ⟨6, -2⟩, ⟨2, 7⟩⟩ ⟨some 9, some 5, 3, .inside⟩ ∧ TriI32 ⟨⟨-3, 1⟩, ⟨6, -2⟩, ⟨2, 7⟩⟩ := by
   decide +kernel
 
+/-- `draw` of a styled triangle issues at most one `fill_solid` per typed scanline: at most
+`3 * (rows + 1)` calls, for every triangle and style. -/
+theorem triangle_draw_calls_le (t : Tri) (style : TriStyle) :
+    ∃ bb calls, triStyledBoundingBox t style = some bb ∧ triDraw t style = some calls ∧
+      calls.length ≤ 3 * (bb.rows.length + 1) := by
+  obtain ⟨bb, li, L, hbb, hli, -, hL, hlen, -⟩ := triangle_terminates t style
+  refine ⟨bb, ?_⟩
+  unfold triDraw
+  by_cases ht : style.isTransparent = true
+  · exact ⟨[], hbb, by simp [ht], Nat.zero_le _⟩
+  · simp only [ht, Bool.false_eq_true, ↓reduceIte, hli, hL, Option.bind_eq_bind, Option.bind_some, pure]
+    exact ⟨_, hbb, rfl, Nat.le_trans (List.length_filterMap_le _ _) hlen⟩
+
 /-! ### rounded rectangles -/
 
 /-- **`RoundedRectangle::points()` terminates**: for EVERY rounded rectangle the drain is the
